@@ -52,9 +52,17 @@ CHECKS = {
  "C15": ("fault_enumeration", "spec/Inspect.tla enumerates every single-fault mutant of the host definitions with the report it must produce; the real "
          "inspect() is run on each and C15_reported evaluated by TLC; soundness half: C15_internal_error on every call of sampled histories of accepted definitions.",
          "6 C15", "TLC-enumerated fault injection + TLA+ clause on every recorded call"),
+ "C16": ("exploration", "spec/DataPath.tla enumerates the paths (injection stage x reference form x persist points); drawn JSON values are run through "
+         "them on the real code with every stage logged type-tagged; C16_preserved / C16_pure / C16_hidden evaluated by TLC (spec/Groups.tla).", "6 C16",
+         "TLC-enumerated paths + seeded value generation, TLA+ comparison of type-tagged stage logs"),
  "C17": ("model_checking", "Rerun clauses (accept, resuming, exact offers, no repeat, not stuck) on every call of histories that place a default or "
          "single-task rerun at every completed resting point; reruns whose re-executed actions succeed are related to the clean scenario's terminal "
          "observations (C17_converge, spec/Groups.tla).", "6 C17", "TLA+ monitor + relational check over rerun histories of the real conductor"),
+ "C19": ("exploration", "C19_idem on every query step of sampled histories over all families; sampled complete histories replayed in one process per "
+         "PYTHONHASHSEED and compared step by step by C19_same (spec/Groups.tla).", "6 C19", "TLA+ clause on recorded query steps + cross-process replay compared by TLC"),
+ "C20": ("exploration", "spec/Params.tla enumerates parameter lists over the documented value classes, delimiters and positions plus the do/with/omitted-do "
+         "shorthands; shorthand/longhand twins are parsed, composed, inspected and conducted on the real code; C20_same / C20_denote by TLC.", "6 C20",
+         "TLC-enumerated notation cases, twin runs compared by TLA+ relations"),
  "C18": ("model_checking", "Append-only action properties over consecutive recorded states.", "6 C18",
          "TLA+ action properties on TLC-validated implementation traces"),
 }
